@@ -44,6 +44,20 @@ OPS_A = ([("step", e, j, o) for e in ("numpy", "SX", "MX") for j in (0, 1) for o
 OPS_B = [("step", "numpy", j, o) for j in (0, 1) for o in (0, 1)] + [("feedback", o) for o in (0, 1)]
 
 
+def neg_some(val):
+    """Value set 1 carries a few negative entries (first speed of every link, every queue): positivity options
+    then really clamp, and an in-place clamp on the caller's arrays becomes visible."""
+    out = {}
+    for k, lst in val.items():
+        if k[1] == "v":
+            out[k] = [-lst[0]] + list(lst[1:])
+        elif k[1] == "w":
+            out[k] = [-x for x in lst]
+        else:
+            out[k] = list(lst)
+    return out
+
+
 def array_params(spec: NetSpec):
     ov = {}
     for i, l in enumerate(spec.links):
@@ -93,7 +107,7 @@ class Session:
         self.np_ic = []
         self.np_snap = []
         for j in (0, 1):
-            ic = np_inputs(self.built, valgen.base_vector(spec, j))
+            ic = np_inputs(self.built, neg_some(valgen.base_vector(spec, j)) if j == 1 else valgen.base_vector(spec, j))
             self.np_ic.append(ic)
             self.np_snap.append({el: {k: v.copy() for k, v in d.items()} for el, d in ic.items()})
         self.cs_ic = {}
@@ -175,6 +189,8 @@ class Session:
             comp = Compiled(F, self.built)
             # caller symbols carry other names: map positionally through the network's own order
             vals = valgen.base_vector(self.spec, j % 2)
+            if j == 1:
+                vals = neg_some(vals)
             if j == 2:  # values with negative entries, so that a clamp left over from an earlier step shows
                 vals = {k: ([-x for x in v] if k[1] in ("rho", "v", "w") else list(v)) for k, v in vals.items()}
             args = []
